@@ -167,3 +167,28 @@ Theorem C02_visiting_order_observable :
   length (fst (fst (DiffMemo.run_diff_m Hash.HashModel.hexhash Hash.HashModel.default_opts (fun _ _ => []) one_block (fun _ => false) (fun _ => false) (mkCfg false 33 100 true) DiffMemoProofs.ord_t1 DiffMemoProofs.ord_t2_xy))) = 2.
 Proof. exact DiffMemoProofs.visiting_order_observable. Qed.
 Print Assumptions C02_visiting_order_observable.
+
+(* ------------------------------------------------------------------ *)
+(** EXTENSION beyond the property's stated domain: values holding INSTANCES OF CLASSES
+    (objects with attributes, Obj/ObjValue.v [ovalue]).  The ordered diff on such values is the
+    run above on the encoding  OObj cls attrs |-> { TAG cls : { attr : value }, TAG2 cls : cls }
+    (Obj/ObjModel.v [orun], tied to DeepDiff on real class instances by the extension stream of
+    harness/objcommon.py); both clauses of the property carry over:  a copy gives an empty diff, and an
+    empty diff means equal by class and attribute values ([opy_eqv]). *)
+From DD Require Obj.ObjValue Obj.ObjModel Obj.ObjFacts Obj.ObjProofs.
+
+Theorem C02_objects_copy_empty :
+  forall hatom udiff ops c (t : Obj.ObjValue.ovalue),
+    thr_num c <= thr_den c -> tiling ops -> Obj.ObjValue.owf t = true ->
+    fst (Obj.ObjModel.orun hatom udiff ops c t t) = [].
+Proof. intros. apply Obj.ObjProofs.orun_copy_empty; assumption. Qed.
+Print Assumptions C02_objects_copy_empty.
+
+Theorem C02_objects_empty_sound :
+  forall hatom udiff ops c ok (t1 t2 : Obj.ObjValue.ovalue),
+    (forall a b, ok a = true -> ok b = true -> hatom a = hatom b -> a = b) -> valid_ops ops ->
+    Obj.ObjValue.owf t1 = true -> Obj.ObjValue.owf t2 = true ->
+    Obj.ObjFacts.oinputs_ok (keep_key c) ok t1 = true -> Obj.ObjFacts.oinputs_ok (keep_key c) ok t2 = true ->
+    fst (Obj.ObjModel.orun hatom udiff ops c t1 t2) = [] -> Obj.ObjValue.opy_eqv t1 t2 = true.
+Proof. intros. eapply Obj.ObjProofs.orun_empty_sound; eassumption. Qed.
+Print Assumptions C02_objects_empty_sound.
